@@ -35,7 +35,8 @@ def rand_dtg(rng, tmax, ntiers=None, kw_share=0.0, names_unique=True, sliver=Non
     """A well-formed textgrid in ticks: tiers share the span [0, tmax]."""
     tiers = []
     names = set()
-    for k in range(ntiers if ntiers is not None else rng.randint(1, 4)):
+    many = rng.random() < 0.05           # now and then enough tiers / entries for two-digit indices in the file
+    for k in range(ntiers if ntiers is not None else (rng.randint(10, 12) if many else rng.randint(1, 4))):
         nm = rand_name(rng, kw_share)
         while names_unique and nm in names:
             nm = nm + "x"
@@ -44,7 +45,7 @@ def rand_dtg(rng, tmax, ntiers=None, kw_share=0.0, names_unique=True, sliver=Non
         ents = []
         if isint:
             x = 0 if rng.random() < 0.5 else rng.randint(0, tmax // 8)
-            while x < tmax and len(ents) < 7:
+            while x < tmax and len(ents) < (13 if (many or rng.random() < 0.05) and k == 0 else 7):
                 if sliver and rng.random() < 0.35:
                     d = rng.choice(sliver)
                 else:
